@@ -165,4 +165,9 @@ def main():
 
 
 if __name__ == "__main__":
-    main()
+    # run as dsim.worker (not __main__) so that Skip / StepBudgetExceeded are the same classes the executors import
+    _here = os.path.dirname(os.path.dirname(os.path.abspath(__file__)))
+    if _here not in sys.path:
+        sys.path.insert(0, _here)
+    from dsim.worker import main as _main
+    _main()
